@@ -173,10 +173,15 @@ def tag_angle(pair: int) -> float:
     return 0.3 + 0.5 * pair
 
 
+def remote_socket_of(case) -> int:
+    """the remote side's socket id: never equal to the local one, so the two cannot be confused unnoticed"""
+    return case.get("remote_socket", (case["socket"] + 2) % 5)
+
+
 def make_world(case):
     from netqasm.sdk.epr_socket import EPRSocket
     world.reset()
-    es = EPRSocket(case["remote"], epr_socket_id=case["socket"], remote_epr_socket_id=case.get("remote_socket", 0))
+    es = EPRSocket(case["remote"], epr_socket_id=case["socket"], remote_epr_socket_id=remote_socket_of(case))
     if case.get("socket_history") == "used-before-in-another-network":
         # the same socket object served an earlier connection of a network in which the remote application ran on another
         # node: nothing of that attachment may survive into the requests of this one
@@ -438,6 +443,13 @@ def run_request_case(case, part) -> None:
     looped = case["kwargs"].get("min_fidelity_all_at_end") is not None
     number = case["kwargs"].get("number", 1)
     stack = ctrl.stack
+    # the socket registration that crossed the boundary when the connection opened
+    want_sock = [(case["socket"], NODE[case["remote"]], remote_socket_of(case))]
+    got_sock = [tuple(x) for x in stack.sockets]
+    if got_sock != want_sock:
+        add_violation(part, "socket-registration", f"the network stack was asked to set up EPR socket(s) {got_sock} (local id, remote "
+                      f"node, remote id); the application opened {want_sock}", case)
+    count(part, "socket-registrations")
     count(part, f"req/{T}/{role}")
     count(part, f"api/{case['api']}")
     n_seen = len(stack.requests) if role == "create" else len(stack.recvs)
@@ -935,6 +947,7 @@ def run(ctx):
         for api in apis:
             ctx.require(f"res-api/{api}", 1)
     ctx.require("socket-reused", 100)
+    ctx.require("socket-registrations", 1000)
     ctx.require("loop/retried", 1)
     ctx.require("loop/single", 1)
     ctx.require("qlink_1_0/converted", 1000)
